@@ -468,6 +468,10 @@ func c19ResultSet(t *rapid.T) {
 			qargs = []interface{}{}
 		}
 	}
+	if rapid.IntRange(0, 3).Draw(t, "decoyprecision") == 0 {
+		// an earlier Precision option that a later one overrides (also by Precision(0): no rounding)
+		fns = append([]qsql.ConfigFunc{qsql.Precision(rapid.IntRange(1, 3).Draw(t, "decoyp"))}, append(fns, qsql.Precision(precision))...)
+	}
 	if perr := hx.Safely(func() {
 		if qargs != nil {
 			qf = qframe.ReadSQLWithArgs(tx, qargs, fns...)
